@@ -74,12 +74,14 @@ def build_doc(case, d):
         item = {"type": "template", "template": "{{ rule.source.path.joinpath(" + repr(os.path.join(d, "values.txt")) + ").read_text() }}{{ query }}"}
     elif kind == "ptemplate":
         item = {"type": "template", "template": "{{ query }}", "vars": os.path.join(d, varspath)}
+    elif kind == "ytag":
+        item = {"type": "set_state", "key": "k", "val": "v"}  # (the text is written by hand in drive_case)
     else:
         item = {"type": "template", "template": "{{ queries | join(',') }}", "vars": os.path.join(d, varspath)}
     if "item" in inject:
         item.update(optins(d, kind))
     stage = {"file": "transformations", "http": "transformations", "command": "transformations", "ptemplate": "postprocessing", "ftemplate": "finalizers",
-             "jcmd": "postprocessing", "jvars": "postprocessing", "jfile": "postprocessing"}[kind]
+             "jcmd": "postprocessing", "jvars": "postprocessing", "jfile": "postprocessing", "ytag": "transformations"}[kind]
     node = item
     for level in range(1, depth + 1):
         if stage == "finalizers":
@@ -123,7 +125,7 @@ def drive_case(case):
         sys.addaudithook(_hook)
         _HOOKED[0] = True
     d = _workdir()
-    cap = "ext" if case["kind"] in ("file", "http", "command", "jcmd", "jfile") else "vars"
+    cap = "ext" if case["kind"] in ("file", "http", "command", "jcmd", "jfile", "ytag") else "vars"
     envname = "PYSIGMA_ALLOW_EXTERNAL_SOURCES" if cap == "ext" else "PYSIGMA_ALLOW_VARS_EXECUTION"
     saved = {k: os.environ.get(k) for k in ("PYSIGMA_ALLOW_EXTERNAL_SOURCES", "PYSIGMA_ALLOW_VARS_EXECUTION")}
     for k in saved:
@@ -146,6 +148,13 @@ def drive_case(case):
         elif case["dirs"] == "source":
             kwargs["source_path"] = os.path.join(d, "base", "pipeline.yml")
         text = yaml.safe_dump(doc)
+        if case["kind"] == "ytag":  # written by hand: no YAML dumper produces such a text
+            call = "!!python/object/apply:subprocess.check_output [['/bin/echo', 'alpha']]"
+            text = ["name: c16\npriority: 10\nvars:\n  users: " + call + "\ntransformations: []\n",
+                    "name: " + call + "\npriority: 10\ntransformations: []\n",
+                    "name: c16\npriority: 10\ntransformations:\n  - type: set_state\n    key: k\n    val: " + call + "\n",
+                    "name: c16\npriority: 10\ntransformations:\n  - type: nest\n    items:\n      - type: nest\n        items:\n          - id: " + call
+                    + "\n            type: set_state\n            key: k\n            val: v\n"][case["depth"]]
         del EVENTS[:]
         p = ProcessingPipeline.from_yaml(text, **kwargs)
         o["bit"] = _find_bits(p)
